@@ -18,7 +18,20 @@ pub fn bases() -> Vec<(&'static str, Vec<(String, String)>)> {
         ("nested_import", vec![("n::a".into(), a_mod.into()), ("o".into(), format!("use n::a;\n{o_std}"))]),
         ("transitive", vec![("b".into(), "pub type Y {\n    pub q: u32,\n    pub r: u32,\n}\n".into()), ("a".into(), format!("use b;\npub type X {{\n    pub y: Y,\n}}\n")), ("o".into(), format!("use a;\n{o_std}"))]),
         ("extern_type", vec![("o".into(), format!("#[size(8), align(4)]\nextern type X;\n{o_std}"))]),
+        // the observed module nested below a parent path `p` (no module `p` exists in the base set)
+        ("nested_standalone", vec![("p::o".into(), format!("{x_local}{o_std}"))]),
+        ("nested_module_import", vec![("p::a".into(), a_mod.into()), ("p::o".into(), format!("use p::a;\n{o_std}"))]),
+        ("nested_type_import", vec![("a".into(), a_mod.into()), ("p::o".into(), format!("use a::X;\n{o_std}"))]),
     ]
+}
+
+/// path of the observed module of a base set and its output file
+fn observed(base: &[(String, String)]) -> (&'static str, &'static str) {
+    if base.iter().any(|(p, _)| p == "p::o") {
+        ("p::o", "p/o.rs")
+    } else {
+        ("o", "o.rs")
+    }
 }
 
 /// Unrelated module bodies (the module path is chosen separately).
@@ -41,7 +54,7 @@ fn unrelated() -> Vec<(&'static str, String)> {
     ]
 }
 
-const UPATHS: &[&str] = &["z", "q::r", "o::sub", "a::sub", "aa"];
+const UPATHS: &[&str] = &["z", "q::r", "o::sub", "a::sub", "aa", "p", "p::z", "p::o::sub"];
 
 #[derive(Clone, Debug)]
 struct Case {
@@ -66,7 +79,7 @@ fn cases() -> Vec<Case> {
                     if u1 == u2 {
                         continue;
                     }
-                    for (p1, p2) in [(0, 1), (2, 0), (4, 3)] {
+                    for (p1, p2) in [(0, 1), (2, 0), (4, 3), (5, 6), (7, 5)] {
                         out.push(Case { base, changes: vec![(u1, p1), (u2, p2)], first });
                     }
                 }
@@ -77,7 +90,10 @@ fn cases() -> Vec<Case> {
 }
 
 fn build_input(base: &[(String, String)], c: &Case, un: &[(&'static str, String)]) -> Input {
-    let mut extra: Vec<(String, String)> = c.changes.iter().map(|(u, p)| (UPATHS[*p].to_string(), un[*u].1.clone())).collect();
+    let (opath, _) = observed(base);
+    let mut extra: Vec<(String, String)> = c.changes.iter().map(|(u, p)| (UPATHS[*p].to_string(), un[*u].1.replace("use o;", &format!("use {opath};")).replace("use o::", &format!("use {opath}::")))).collect();
+    // an unrelated module cannot sit at a path the base set already uses
+    extra.retain(|(p, _)| !base.iter().any(|(bp, _)| bp == p));
     let mut modules = vec![];
     if c.first {
         modules.append(&mut extra);
@@ -115,10 +131,11 @@ pub fn run(tier: &str, only: Option<&Value>) -> i32 {
             let c = &all[idxs[j]];
             let input = build_input(&bs[c.base].1, c, &un);
             let v = pipe::run(&input, ps);
-            let base_file = &baseline[c.base].built().unwrap().files["o.rs"];
+            let ofile = observed(&bs[c.base].1).1;
+            let base_file = &baseline[c.base].built().unwrap().files[ofile];
             let viol = match &v {
                 pipe::Verdict::Panic(p) => Some(("panic".to_string(), p.clone())),
-                pipe::Verdict::Ok(b) => match b.files.get("o.rs") {
+                pipe::Verdict::Ok(b) => match b.files.get(ofile) {
                     None => Some(("observed_file_missing".to_string(), format!("files: {:?}", b.files.keys().collect::<Vec<_>>()))),
                     Some(f) if f != base_file => Some(("observed_module_output_changed".to_string(), format!("--- without the unrelated change ---\n{base_file}\n--- with it ---\n{f}"))),
                     _ => None,
@@ -151,7 +168,7 @@ pub fn run(tier: &str, only: Option<&Value>) -> i32 {
         if only_i.is_none() {
             for (bi, (name, mods)) in bs.iter().enumerate() {
                 for (mi, (mpath, mtext)) in mods.iter().enumerate() {
-                    if mpath == "o" {
+                    if mpath == "o" || mpath == "p::o" {
                         continue;
                     }
                     for extra in ["pub type Fresh {\n    pub q: u8,\n}\n", "pub type FreshV {\n    vftable {\n        pub fn z(&self);\n    },\n}\n", "pub enum FreshE: u8 {\n    K,\n}\n"] {
@@ -163,11 +180,12 @@ pub fn run(tier: &str, only: Option<&Value>) -> i32 {
                         rep.traces += 1;
                         rep.evaluations += 1;
                         rep.transitions += 1;
-                        let base_file = &baseline[bi].built().unwrap().files["o.rs"];
+                        let ofile = observed(mods).1;
+                        let base_file = &baseline[bi].built().unwrap().files[ofile];
                         if let pipe::Verdict::Ok(b) = &v {
                             rep.count("pairs_compared", 1);
-                            if &b.files["o.rs"] != base_file {
-                                rep.violation(Violation { key: "observed_module_output_changed".into(), features: vec![format!("base:{name}"), "unreferenced_type_in_imported_module".into()], input, ps, detail: format!("--- before ---\n{base_file}\n--- after ---\n{}", b.files["o.rs"]), locator: json!({"space": "imported_extra", "index": bi, "ps": ps}) });
+                            if &b.files[ofile] != base_file {
+                                rep.violation(Violation { key: "observed_module_output_changed".into(), features: vec![format!("base:{name}"), "unreferenced_type_in_imported_module".into()], input, ps, detail: format!("--- before ---\n{base_file}\n--- after ---\n{}", b.files[ofile]), locator: json!({"space": "imported_extra", "index": bi, "ps": ps}) });
                             }
                         } else {
                             rep.count("pairs_skipped_changed_set_rejected", 1);
